@@ -198,7 +198,7 @@ def check_print(d, o, case, how="dumps", lenient_lookalikes=False):
         text = print_via(d, o, how)
     except Exception as e:
         return [Discrepancy(f"print_raises:{type(e).__name__}", f"{how} raised {type(e).__name__}: {e!s:.120}", case)]
-    if MARK in text or "__" in re.sub(r'"[^"]*"|\'[^\']*\'', "", text):
+    if MARK in text:   # every value planted under a __name__ key carries this marker
         return [Discrepancy("hidden_key_printed", f"text contains data of a __name__ key: {text[:200]!r}", case)]
     try:
         ev, _ = reader.events(text)
@@ -265,12 +265,18 @@ def search(acc: Acc, tier, shard, nshards):
         if src == "loads":
             text = render.render(doc).text
             try:
-                d = W.loads(text)
+                d = W.loads(text, position=ch.bool())   # real __position__ data must never be printed either
             except Exception as e:
                 return [Discrepancy(f"load:{type(e).__name__}", f"generated document rejected: {e!s:.120}", {"text": text})]
         else:
             d = via_dict_api([doc[0]]) if len(doc) == 1 else [via_dict_api([r]) for r in doc]
             # expressions set through the API are stored as given
+        if ch.chance(1, 4):
+            for r in (d if isinstance(d, list) else [d]):
+                for _, o in objects_of(r):
+                    if ch.bool():
+                        o[ch.choice(["__note__", "__x__", "__tokens__"])] = ch.choice([MARK, [MARK, 1], {"k": MARK}])
+            acc.cls("hidden_keys_planted")
         o = draw_print_options(ch, d)
         if o is None:
             acc.excl("both_quotes_in_strings")
